@@ -462,8 +462,10 @@ class _Runner:
             if ok:
                 col.fail("C01.state_leak", case, "fails on a re-used instance (%s) but holds on fresh instances" % fails[0][1])
             else:
-                for clause, message in fails[:1]:
-                    col.fail(clause, case, message)
+                clause, message = fails[0]
+                if len(fails) > 1:
+                    message += " [also: %s]" % ", ".join(c for c, _ in fails[1:])
+                col.fail(clause, case, message)
             if raised or ok:
                 return False  # instance state is suspect: caller rebuilds the pair
         return True
@@ -581,7 +583,7 @@ def _si_section(r, col, configs, n_cut, n_pairs, n_rand, n_stride, deadline, lab
                     return
 
 
-def _fbf_section(r, col, configs, deadline):
+def _fbf_section(r, col, configs, deadline, n_extra=1):
     """frame_by_frame_calculation: the same matrix for several chunk_size values (each is
     compared with compute_full, hence with each other)."""
     for cfg in configs:
@@ -591,7 +593,8 @@ def _fbf_section(r, col, configs, deadline):
         pair, base = got
         L, s = base["frame_length"], base["frame_shift"]
         rng = _common.make_rng(r.seed, "c01.fbf.%r" % (sorted((k, str(v)) for k, v in cfg.items()),))
-        ns = sorted({0, 1, L // 2, L // 2 + 1, L, L + s, 2 * L + 1, 3 * L + 2, int(rng.integers(3 * L, 6 * L + 2))})
+        ns = sorted({0, 1, L // 2, L // 2 + 1, L, L + s, 2 * L + 1, 3 * L + 2}
+                    | {int(v) for v in rng.integers(0, 6 * L + 2, size=n_extra)})
         for N in ns:
             x = _signal(r.seed, N, base["dtype"])
             cache = {}
@@ -700,7 +703,7 @@ def run(tier, seed):
              pad_to_nearest_power_of_two=True),
     ]
     if not col.too_many_failures():
-        _fbf_section(r, col, fbf, dl(1.0))
+        _fbf_section(r, col, fbf, dl(1.0), n_extra=1 if quick else 25)
 
     col.note("executed per computer.kind: %s" % ", ".join("%s=%d" % kv for kv in sorted(r.counts.items())))
     col.note("tiny STFT: %d (L, s, mode) configurations fully enumerated in %.1f s; other tiny STFT %.1f s, tiny SI %.1f s, "
